@@ -452,16 +452,16 @@ pub fn generate(seed: u64, thorough: bool) -> Vec<String> {
     let mut rng = Rng::new(seed ^ 0xC06);
     let mut out = vec![];
     let mut grams = fixed_grams();
-    let n = if thorough { 1500 } else { 390 };
+    let n = if thorough { 3000 } else { 390 };
     for i in 0..n {
-        // size caps: k ≤ 3 with up to 3 terminals; k = 4, 5 (thorough) with 2 terminals and ≤ 4 non-terminals
+        // size caps: k ≤ 3 with up to 3 terminals; k = 4..6 (thorough) with 2 terminals and ≤ 4 non-terminals
         let big_k = thorough && i % 4 == 3;
         let g = if big_k { random_class_gram(&mut rng, 4, 2, 3) } else { random_class_gram(&mut rng, 5, 3, 4) };
         grams.push(g);
     }
     for (i, g) in grams.iter().enumerate() {
         let big_k = thorough && i >= 10 && (i - 10) % 4 == 3;
-        let maxk = if big_k { 5 } else { 3 };
+        let maxk = if big_k { 6 } else { 3 };
         let gs = g.show();
         for k in 0..=maxk {
             out.push(format!("c06-first {gs} {k}"));
